@@ -14,7 +14,7 @@ from . import common, printers
 JAX_CALLABLE = {
     "numpy.where", "numpy.logical_and", "numpy.logical_or", "numpy.logical_not", "numpy.sign", "numpy.sqrt", "numpy.zeros_like",
     "numpy.abs", "numpy.floor", "numpy.exp", "numpy.log", "numpy.sin", "numpy.cos", "numpy.tan", "numpy.asin", "numpy.acos", "numpy.atan",
-    "numpy.arcsin", "numpy.arccos", "numpy.arctan", "numpy.pi", "numpy.e", "numpy.inf", "numpy.nan", "numpy.array", "numpy.float64", "numpy.ceil",
+    "numpy.arcsin", "numpy.arccos", "numpy.arctan", "numpy.all", "numpy.any", "numpy.pi", "numpy.e", "numpy.inf", "numpy.nan", "numpy.array", "numpy.float64", "numpy.ceil",
 }
 
 
